@@ -21,6 +21,8 @@ class Creators:
     """
     if gfa_line is None:
       return
+    if isinstance(gfa_line, str) and not gfa_line:
+      raise gfapy.FormatError("An empty string is not a valid GFA line")
     if self._version == "gfa1":
       self.__add_line_GFA1(gfa_line)
     elif self._version == "gfa2":
